@@ -53,6 +53,13 @@ CHECKS = {
    note="Trusted: TLC, the hook placement in env.rs / callstack.rs / Program::execute, /proc for descriptor and child counts (slack of 3 descriptors / 2 children for asynchronous reaping; a per-iteration leak grows by >= N-1). "
         "A trace with one scope_pop removed must be rejected in every run (self-test).",
    ref="DESIGN.md section 6 C18"),
+ "C08": dict(level=MC, thorough=True, tech="TLA+ Glob.tla (pattern tokens -> AST -> Match, incl. brackets, classes, extglob, nocasematch) evaluated exhaustively by TLC over all (pattern, subject) pairs; every pattern replayed against every subject in brush with bash audit",
+   text="Glob.tla defines parsing and whole-string matching of shell patterns; TLC enumerates every pattern of <= 4 tokens over a 10-token metacharacter alphabet (plus bracket-class and extglob families) "
+        "and every subject of <= 3 characters (including newline and a multi-byte character), decides each pair, checks sanity properties of the definition, and emits per pattern the set of matching subjects; "
+        "the real shell evaluates every pattern against every subject in `case`, `[[ == ]]`, nocasematch and pathname expansion.",
+   note="Trusted: TLC, bash 5.2.15 as the authority for \"matches\" (72 extglob texts on which bash deviates from its documented semantics are excluded by the audit), C.UTF-8 code-point order. "
+        "Pattern texts whose meaning POSIX leaves unspecified (WellDefined = FALSE) are not judged.",
+   ref="DESIGN.md section 6 C08, Appendix F"),
 }
 PENDING_REASON = "check not built yet in this round (planned, see DESIGN.md section 12); no claim is made"
 
